@@ -16,13 +16,13 @@ RULE = ('case = (file length from {0,1,2,3,...} and around multiples of the stre
         'default of _file_iter_range (or the real 1 MiB); modification time with and without a sub-second part; Range header: canonical RFC 7233 '
         'spellings "bytes=a-b", "a-", "-n" with positions at 0, 1, len-2..len+1, 2*len, 10^12, leading zeros, multi-range lists (first range '
         'decides), and near misses: spaces, signs, underscores, other units, upper-case unit, reversed, empty parts, junk; If-Modified-Since before '
-        '/ equal / after the mtime second in RFC 1123, RFC 850 and asctime form, with "; length=" suffix, or junk; GET and HEAD are both served for '
+        '/ equal / after the mtime second in RFC 1123, RFC 850 and asctime form, with "; length=" suffix, or junk; process time zone UTC or a fixed offset (-12 .. +9:30 h); GET and HEAD are both served for '
         'every case). Oracle (own RFC 7233 model): no Range -> 200, whole file, Content-Length = true length; canonical first range satisfiable -> '
         '206 whose Content-Range, Content-Length and bytes all equal the clipped slice; canonical unsatisfiable -> 416; any other Range text -> 416, '
         'or 206 whose three descriptions agree with each other and lie inside the file; no chunk larger than the buffer; If-Modified-Since >= mtime '
         'second -> 304 with empty body, older -> not 304; HEAD -> same status and headers as GET (Date aside), empty body. Non-trivial = a Range '
         'header or a conditional date is present; distinct by case hash.')
-ASSUMPTIONS = ['TZ=UTC (the date parser uses time.mktime)', 'static_file is driven from a handler of the default application',
+ASSUMPTIONS = ['the process time zone is varied over fixed-offset zones (TZ + time.tzset()); zones with daylight-saving rules are not explored', 'static_file is driven from a handler of the default application',
                'the streaming buffer is lowered through the default argument of _file_iter_range (harness-side, no source change)',
                '"canonical" = lower-case unit, no white space, decimal ASCII digits; everything else is judged leniently (416 or a self-consistent 206)']
 
@@ -207,7 +207,8 @@ def case_st(draw):
     mtime = T0 + draw(st.integers(0, 10**8)) + frac
     if draw(st.integers(0, 7)) == 0:
         mtime = draw(st.sampled_from([0, 0.5, 1, 1.999, 86400, 2**31 - 1, 2**31, 946684800]))      # boundary times: the epoch itself, the 32-bit edge
-    case = {'n': n, 'buf': buf, 'mtime': mtime}
+    # the process may run in any (fixed-offset) time zone: HTTP dates are GMT whatever the zone
+    case = {'n': n, 'buf': buf, 'mtime': mtime, 'tz': draw(st.sampled_from(['UTC', 'UTC', 'XXX-3', 'YYY5', 'ZZZ-12', 'AAA9:30']))}
     if draw(st.integers(0, 9)) < 7:
         case['range'] = draw(range_st(n))
     if draw(st.integers(0, 9)) < 4:
@@ -221,8 +222,15 @@ def case_st(draw):
     return case
 
 
+def _set_tz(tz):
+    import time
+    os.environ['TZ'] = tz
+    time.tzset()
+
+
 def _serve(case, method):
     import ombott.static_stream as ss
+    _set_tz(case.get('tz') or 'UTC')
     root, name = the_file(case['n'], case['mtime'])
     headers = {}
     if case.get('range'):
@@ -235,6 +243,7 @@ def _serve(case, method):
         return serve_static(name, root, method=method, headers=headers)
     finally:
         ss._file_iter_range.__defaults__ = old
+        _set_tz('UTC')
 
 
 def check_case(ctx, case):
@@ -286,6 +295,12 @@ def run(ctx):
                     for style in ('rfc1123', 'rfc850', 'asctime', 'length'):
                         ep = T0 + 77 + d
                         ctx.guarded(check_case, {'n': 5, 'buf': 8, 'mtime': T0 + 77 + frac,
+                                                 'ims': {'kind': 'grid', 'epoch': ep, 'text': fmt_date(ep, style), 'style': style}})
+            for tz in ('XXX-3', 'YYY5', 'ZZZ-12'):
+                for d in (-4 * 3600, -3600, -1, 0, 1, 3600, 4 * 3600, 6 * 3600):
+                    for style in ('rfc1123', 'rfc850', 'asctime'):
+                        ep = T0 + 500000 + d
+                        ctx.guarded(check_case, {'n': 4, 'buf': 8, 'mtime': T0 + 500000, 'tz': tz,
                                                  'ims': {'kind': 'grid', 'epoch': ep, 'text': fmt_date(ep, style), 'style': style}})
             for mt in (0, 0.5, 1, 86400):
                 for ep in (0, 1, 2, 86400, 86401):
